@@ -740,3 +740,432 @@ def gen_line(rng, pats_text, long_ok=False):
     if rng.below(4):
         s += b'\n'
     return s
+
+
+# ---------------------------------------------------------------------------------------------
+# SEQUENCES of calls inside one process (request Q of probe_re.c / drv_re.ml).
+# regex.c keeps file-scope state between calls (the flag re_bad); the model threads it explicitly
+# (coq/ReStateDefs.v) and proves that every call answers as the pure function of its own arguments.
+# On the implementation side the same claim is checked directly: every operation of a session must be
+# answered exactly as the same operation in a FRESH process (PROBE_RE_FORK=1), and as the threaded model
+# answers it.
+#   op:  ('M', flg, [pattern bytes or None, ...])     rset_make into the next slot
+#        ('G', pattern bytes)                         bare regcomp + regfree
+#        ('F', slot, nsub, eflags, line bytes)        rset_find with the set of that slot
+
+# malformed fragments, by the exit they take (regex.c regcomp / rset.c rset_make)
+BAD_COUNT = [b'{2,1}', b'{129}', b'{200}', b'{1,129}', b'{3,2}', b'{99999999999}', b'{128,127}']      # closed interval, bad count
+BAD_OPEN = [b'{2', b'{1,', b'{1,2', b'{2x', b'{x}', b'{', b'{,2']                                        # interval not closed by '}'
+BAD_GROUP = [b'(|)', b'(||)', b'((|))', b'(|)*']                                                        # group with nothing inside
+BAD_PAREN = [b'(', b')', b'(a', b'a)', b'a)(b', b'((a)', b'(a))']                                       # not self-contained (rset) / unclosed, unmatched (regcomp)
+BAD_BRK = [b'[a', b'[', b'[^', b'[[:alpha:]', b'[]']                                                    # bracket not closed (rset level)
+BAD_BIG = [b'((a{128}){128}){128}', b'(((a|b){128}){128}){128}']                                         # reservation >= NINST
+BAD_ATOMS = [b'a', b'(ab)', b'[a-c]', b'.', b'(a|b)', 'é'.encode(), b'\\)', b'[)]']
+
+
+def gen_bad_pattern(rng, valid_texts):
+    """a pattern that is (almost always) malformed: a malformed fragment in a random context.  The
+    checks never rely on it being rejected -- only on every answer being the same as in a fresh process"""
+    cls = rng.below(12)
+    pre = rng.choice([b'', b'', b'b', b'x', rng.choice(valid_texts) if valid_texts else b'c'])
+    post = rng.choice([b'', b'', b'b', b'|c', rng.choice(valid_texts) if valid_texts else b'c'])
+    if cls < 4:
+        core = rng.choice(BAD_ATOMS) + rng.choice(BAD_COUNT)
+    elif cls < 7:
+        core = rng.choice(BAD_ATOMS) + rng.choice(BAD_OPEN)
+        if rng.below(2):
+            post = b''
+    elif cls < 9:
+        core = rng.choice(BAD_GROUP)
+    elif cls == 9:
+        core = rng.choice(BAD_PAREN)
+    elif cls == 10:
+        core = rng.choice(BAD_BRK)
+        post = b''
+    else:
+        return rng.choice(BAD_BIG)
+    p = pre + core + post
+    w = rng.below(6)
+    if w == 0:
+        p = b'(' + p + b')'
+    elif w == 1:
+        p = b'(x|' + p + b')'
+    return p
+
+
+def q_op(op):
+    if op[0] == 'M':
+        return 'M%d:%s' % (op[1], ','.join('~' if p is None else hx(p) for p in op[2]))
+    if op[0] == 'G':
+        return 'G:' + hx(op[1])
+    return 'F%d:%d:%d:%s' % (op[1], op[2], op[3], hx(op[4]))
+
+
+def q_line(ops):
+    return 'Q ' + ' '.join(q_op(o) for o in ops)
+
+
+def q_text(ops):
+    out = []
+    for o in ops:
+        if o[0] == 'M':
+            out.append('rset_make flags=%d %s' % (o[1], [None if p is None else p.decode('utf-8', 'replace') for p in o[2]]))
+        elif o[0] == 'G':
+            out.append('regcomp %r' % o[1].decode('utf-8', 'replace'))
+        else:
+            out.append('rset_find slot=%d nsub=%d flags=%d line=%r' % (o[1], o[2], o[3], o[4].decode('utf-8', 'replace')))
+    return out
+
+
+def q_parse_line(line):
+    """inverse of q_line (for replay files)"""
+    ops = []
+    for w in line.split()[1:]:
+        if w[0] == 'M':
+            f, _, ps = w[1:].partition(':')
+            ops.append(('M', int(f), [None if x == '~' else vlib.unhx(x) for x in ps.split(',') if x != '']))
+        elif w[0] == 'G':
+            ops.append(('G', vlib.unhx(w[2:])))
+        else:
+            a = w[1:].split(':')
+            ops.append(('F', int(a[0]), int(a[1]), int(a[2]), vlib.unhx(a[3])))
+    return ops
+
+
+def q_split(a, n):
+    if a is None:
+        return None
+    parts = [x.strip() for x in a.split(' ; ')]
+    return parts if len(parts) == n else None
+
+
+def q_units(ops):
+    """the operations of a session as independent units: a compilation together with the matches that use its
+    slot (renumbered to slot 0), or a bare regcomp.  -> list of (unit ops, indices into ops)"""
+    units = []
+    slot_unit = []
+    for i, o in enumerate(ops):
+        if o[0] == 'M':
+            slot_unit.append(len(units))
+            units.append(([o], [i]))
+        elif o[0] == 'G':
+            units.append(([o], [i]))
+        else:
+            if 0 <= o[1] < len(slot_unit):
+                u = units[slot_unit[o[1]]]
+                u[0].append(('F', 0, o[2], o[3], o[4]))
+                u[1].append(i)
+            else:
+                units.append(([o], [i]))
+    return units
+
+
+def q_inp(ops):
+    return {'session': q_line(ops), 'calls': q_text(ops)}
+
+
+def check_sessions(res, probes, model, sessions, env=None, chunk=25, must_reject=(), must_accept=(), max_report=6):
+    """probes: [(name, exe)], the first one is the plain probe.  Returns the per-session answer lists of the
+    first probe (None where it crashed).  Reports:
+      * violation: an operation answered differently in the session than in a fresh process (any probe);
+      * violation: crash / sanitizer report / hang of a probe on a session;
+      * violation: a must_reject set accepted / a must_accept set rejected inside a session;
+      * disagreement: session answers differ from the threaded model."""
+    env = dict(env or {})
+    lines = [q_line(s) for s in sessions]
+    unit_of = []          # per session: list of (unit line, idxs)
+    ulines = {}
+    for s in sessions:
+        us = []
+        for uops, idxs in q_units(s):
+            ul = q_line(uops)
+            ulines.setdefault(ul, len(ulines))
+            us.append((ul, idxs))
+        unit_of.append(us)
+    ulist = sorted(ulines, key=lambda k: ulines[k])
+    mset_rej = set(q_op(('M', 0, list(ps))) for ps in must_reject)
+    mset_acc = set(q_op(('M', 0, list(ps))) for ps in must_accept)
+    first = None
+    reported = 0
+    mans = None
+    if model:
+        mans, minc = run_all(model, lines, chunk=chunk, timeout=600, env=env)
+        for (j, rc, err) in minc[:3]:
+            res.disagree({'what': 'model driver crashed or hung on this session (rc=%s)' % rc, 'input': [q_inp(sessions[j])], 'stderr': (err or '')[-500:]})
+    res.extra['session_units_distinct'] = len(ulist)
+    for pname, exe in probes:
+        ans, inc = run_all(exe, lines, chunk=chunk, timeout=600, env=env)
+        for (j, rc, err) in inc[:4]:
+            res.violation({'what': '%s: crash, sanitizer report or hang during a sequence of compilations and matches in one process (rc=%s)' % (pname, rc),
+                           'input': [q_inp(sessions[j])], 'observed': (err or '')[-1500:], 'expected': 'every call rejects cleanly or compiles; bounded matching'})
+        fenv = dict(env, PROBE_RE_FORK='1')
+        uans, uinc = run_all(exe, ulist, chunk=400, timeout=600, env=fenv)
+        iso = dict(zip(ulist, uans))
+        split = []
+        nmust = 0
+        reported = 0
+        for j, s in enumerate(sessions):
+            got = q_split(ans[j], len(s))
+            split.append(got)
+            if got is None:
+                continue
+            for ul, idxs in unit_of[j]:
+                ia = q_split(iso.get(ul), len(idxs))
+                if ia is None:
+                    continue
+                for k, i in enumerate(idxs):
+                    res.evaluations += 1
+                    if got[i] == ia[k] or 'timeout' in got[i] or 'timeout' in ia[k] or 'crash' in ia[k]:
+                        continue
+                    if reported >= max_report:
+                        res.count('further operations answered differently in a session than alone (not reported one by one)')
+                        continue
+                    reported += 1
+                    # shrink the calls in front of the unit that is answered differently
+                    unit_ops = q_parse_line(ul)
+                    upto = idxs[0]
+                    # the calls in front of it: those of this session and of the sessions answered before it by the same process
+                    before_units = []
+                    for j0 in range((j // chunk) * chunk, j):
+                        before_units += q_units(sessions[j0])
+                    before_units += q_units(s[:upto])
+
+                    def fails(sub, unit_ops=unit_ops, ia=ia, exe=exe, k=k):
+                        pre = [o for (uops, _) in sub for o in uops]
+                        # renumber: every kept unit gets its own slot in order
+                        ops2 = []
+                        nslot = 0
+                        for (uops, _) in sub:
+                            for o in uops:
+                                ops2.append(o if o[0] != 'F' else ('F', nslot - 1, o[2], o[3], o[4]))
+                                if o[0] == 'M':
+                                    nslot += 1
+                        tail = [(o if o[0] != 'F' else ('F', nslot, o[2], o[3], o[4])) for o in unit_ops]
+                        out, rc, err = run_batch(exe, [q_line(ops2 + tail)], 60, env)
+                        g = q_split(out[0], len(ops2) + len(tail)) if out else None
+                        return g is not None and g[len(ops2) + k] != ia[k]
+                    small = q_units(s[:upto])
+                    repro = False
+                    try:
+                        if before_units and fails(before_units):
+                            repro = True
+                            small = vlib.shrink(before_units, fails, max_steps=150)
+                    except Exception:
+                        pass
+                    ops2, nslot = [], 0
+                    for (uops, _) in small:
+                        for o in uops:
+                            ops2.append(o if o[0] != 'F' else ('F', nslot - 1, o[2], o[3], o[4]))
+                            if o[0] == 'M':
+                                nslot += 1
+                    tail = [(o if o[0] != 'F' else ('F', nslot, o[2], o[3], o[4])) for o in unit_ops]
+                    o = s[i]
+                    what = ('the answer of the matcher depends on what was compiled earlier in the same process: %s is answered "%s" here and "%s" in a fresh process'
+                            % (q_text([o])[0], got[i][:80], ia[k][:80]))
+                    if ia[k].startswith('ok') and got[i].startswith('rej'):
+                        what = 'a pattern (set) that compiles in a fresh process is rejected after an earlier compilation in the same process (existing matches are missed): ' + what
+                    elif ia[k].startswith('set=') and not ia[k].startswith('set=-1') and (got[i] == 'none' or got[i].startswith('set=-1')):
+                        what = 'an existing match is missed: ' + what
+                    res.violation({'what': '%s: %s' % (pname, what), 'input': [q_inp(ops2 + tail)], 'original_session': q_inp(s),
+                                   'reproduced_alone': repro, 'expected': ia[k], 'observed': got[i],
+                                   'replay_note': 'python3 tools/check.py <ID> --replay <this file>'})
+            for i, o in enumerate(s):
+                if o[0] == 'M' and nmust < 3:
+                    key = q_op(('M', 0, o[2]))
+                    if (key in mset_rej and not got[i].startswith('rej')) or (key in mset_acc and not got[i].startswith('ok')):
+                        nmust += 1
+                    if key in mset_rej and not got[i].startswith('rej'):
+                        res.violation({'what': '%s: a malformed pattern (set) is accepted instead of rejected (inside a sequence of compilations)' % pname,
+                                       'input': [q_inp(s[:i + 1])], 'expected': 'rej', 'observed': got[i]})
+                    if key in mset_acc and not got[i].startswith('ok'):
+                        res.violation({'what': '%s: a valid pattern (set) is rejected (inside a sequence of compilations)' % pname,
+                                       'input': [q_inp(s[:i + 1])], 'expected': 'ok ...', 'observed': got[i]})
+        if first is None:
+            first = split
+        if mans is not None:
+            nd = 0
+            for j, s in enumerate(sessions):
+                if ans[j] is not None and mans[j] is not None and ans[j] != mans[j] and 'timeout' not in ans[j]:
+                    nd += 1
+                    if nd <= 5:
+                        res.disagree({'what': '%s and the threaded model (ReStateDefs.session_gen) differ on a sequence of calls' % pname,
+                                      'input': [q_inp(s)], 'implementation': ans[j][:800], 'model': mans[j][:800]})
+            res.extra['session_model_differences_' + pname.replace(' ', '_')] = nd
+    return first
+
+
+# ---------------------------------------------------------------------------------------------
+# the same through the real editor: `vi -s -e` scripts in which commands with rejected patterns are
+# followed by commands with valid ones.
+#   command: ('s', lineno, pat)   N s<d>pat<d>X<d>           first match on line N replaced by X
+#            ('g', pat)           g<d>pat<d>s/$/ G/          every matching line gets " G" appended
+#            ('a', lineno, pat)   N  then  /pat/s/$/ A/      the first matching line AFTER line N gets " A" appended
+# Oracle 1 (implementation only): the final buffer equals that of the script without the commands whose
+# pattern a fresh probe process rejects (a rejected command does nothing, and nothing of it survives).
+# Oracle 2 (model): the final buffer predicted from the model's answers for each pattern ALONE.
+DELIMS = b'/,;:!#%&@~=_'
+
+
+def ex_cmd_bytes(c):
+    pat = c[-1]
+    d = next((bytes([x]) for x in DELIMS if x not in pat), None)
+    if d is None or b'\n' in pat or pat.endswith(b'\\') or pat == b'':
+        return None
+    if c[0] == 's':
+        return b'%d' % c[1] + b's' + d + pat + d + b'X' + d + b'\n'
+    if c[0] == 'g':
+        return b'g' + d + pat + d + b's/$/ G/\n'
+    if b'/' in pat or c[1] < 1:
+        return None
+    return b'%d\n/' % c[1] + pat + b'/s/$/ A/\n'
+
+
+def ex_script(ic, cmds):
+    return (b'se ic\n' if ic else b'se noic\n') + b''.join(ex_cmd_bytes(c) for c in cmds) + b'w\nq!\n'
+
+
+def ex_predict(lines, cmds, find):
+    """find(pat, line) -> (set, so, eo) from the model's answer for the pattern alone (None = rejected)"""
+    buf = list(lines)
+    for c in cmds:
+        pat = c[-1]
+        if c[0] == 's':
+            n = c[1] - 1
+            if 0 <= n < len(buf):
+                r = find(pat, buf[n])
+                if r is not None and r[0] >= 0:
+                    buf[n] = buf[n][:r[1]] + b'X' + buf[n][r[2]:]
+        elif c[0] == 'g':
+            for n in range(len(buf)):
+                r = find(pat, buf[n])
+                if r is not None and r[0] >= 0:
+                    buf[n] = buf[n][:-1] + b' G\n'
+        else:
+            for n in range(c[1], len(buf)):
+                r = find(pat, buf[n])
+                if r is None:
+                    break
+                if r[0] >= 0:
+                    buf[n] = buf[n][:-1] + b' A\n'
+                    break
+    return b''.join(buf)
+
+
+def check_ex_sequences(res, vi, probe, model, scripts, env=None, max_report=4):
+    """scripts: list of dict(ic=0|1, lines=[bytes ending in \\n], cmds=[...]).  Commands that cannot be written as
+    an ex command (no free delimiter, trailing backslash) must have been dropped by the caller (ex_cmd_bytes)."""
+    env = dict(env or {})
+    # which patterns are rejected: a fresh process per pattern (implementation only)
+    pats = {}
+    for sc in scripts:
+        for c in sc['cmds']:
+            pats.setdefault((sc['ic'], c[-1]), None)
+    keys = list(pats)
+    ul = [q_line([('M', ic, [p])]) for ic, p in keys]
+    uans, _ = run_all(probe, ul, chunk=400, timeout=300, env=dict(env, PROBE_RE_FORK='1'))
+    rejected = {k: (a is not None and a.startswith('rej')) for k, a in zip(keys, uans)}
+    simple_re = re.compile(rb'^\^?(\\<)?[^\\.*+?\[\]{}()$|^]*(\\>)?\$?$')
+
+    def run1(sc, cmds):
+        r = vlib.run_ex(vi, ex_script(sc['ic'], cmds), files={'f': b''.join(sc['lines'])}, args=['f'], readback=['f'], timeout=20)
+        if r.timed_out:
+            r = vlib.run_ex(vi, ex_script(sc['ic'], cmds), files={'f': b''.join(sc['lines'])}, args=['f'], readback=['f'], timeout=60)
+        return r
+
+    def work(sc):
+        full = run1(sc, sc['cmds'])
+        kept = [c for c in sc['cmds'] if not rejected.get((sc['ic'], c[-1]))]
+        ref = run1(sc, kept) if len(kept) != len(sc['cmds']) else full
+        return full, ref, kept
+    outs = vlib.pmap(work, scripts)
+    # model predictions: one R request per (pattern, line) pair actually needed -- ask for all lines of the script's buffer as it evolves
+    reported = 0
+    npred = 0
+
+    def text(sc, cmds):
+        return ex_script(sc['ic'], cmds).decode('utf-8', 'replace')
+    for sc, (full, ref, kept) in zip(scripts, outs):
+        res.evaluations += 1
+        res.count('ex scripts with rejected patterns followed by valid ones')
+        if full.crashed():
+            res.violation({'what': 'the editor crashed or hung on an ex script with rejected and valid patterns (rc=%s)' % full.rc,
+                           'input': [{'ex_script': hx(ex_script(sc['ic'], sc['cmds'])), 'file': hx(b''.join(sc['lines'])), 'script_text': text(sc, sc['cmds'])}],
+                           'observed': full.err[-1200:].decode('utf-8', 'replace')})
+            continue
+        if full.files.get('f') != ref.files.get('f') and reported < max_report:
+            reported += 1
+            # shrink the command list (the rejected commands are decided by fresh processes, so fails() is deterministic)
+            def fails(cmds, sc=sc):
+                a = run1(sc, cmds)
+                k = [c for c in cmds if not rejected.get((sc['ic'], c[-1]))]
+                b = run1(sc, k)
+                return a.files.get('f') != b.files.get('f')
+            small = sc['cmds']
+            try:
+                small = vlib.shrink(sc['cmds'], fails, max_steps=40)
+            except Exception:
+                pass
+            a = run1(sc, small)
+            k = [c for c in small if not rejected.get((sc['ic'], c[-1]))]
+            b = run1(sc, k)
+            res.violation({'what': 'vi -s -e: commands with valid patterns behave differently when commands with rejected patterns were run before them in the same '
+                                   'editor session (an existing match is missed or a different one reported)',
+                           'input': [{'ic': sc['ic'], 'file': hx(b''.join(sc['lines'])), 'ex_script': hx(ex_script(sc['ic'], small)),
+                                      'script_text': text(sc, small), 'without_rejected_commands': text(sc, k)}],
+                           'expected': (b.files.get('f') or b'').decode('utf-8', 'replace'), 'observed': (a.files.get('f') or b'').decode('utf-8', 'replace')})
+    # oracle 2: the model's prediction (each pattern alone), evaluated lazily with a small cache of R requests
+    if model:
+        cache = {}
+
+        def ask(batch):
+            reqs = [req(ic, 1, [p], [(0, l)]) for (ic, p, l) in batch]
+            ans, _ = run_all(model, reqs, chunk=400, timeout=300, env=env)
+            for k, a in zip(batch, ans):
+                if a is None:
+                    cache[k] = 'err'
+                    continue
+                d = parse_answer(a)
+                if d['status'] != 'ok' or not d['cases'] or d['cases'][0]['kind'] != 'set':
+                    cache[k] = None if d['status'] == 'rej' else 'err'
+                else:
+                    c = d['cases'][0]
+                    cache[k] = (c['set'], c['g'][0][0], c['g'][0][1]) if c['set'] >= 0 else (-1, -1, -1)
+        # iterate to a fixed point: predicting needs answers on the evolving buffer
+        preds = [None] * len(scripts)
+        for _round in range(12):
+            missing = set()
+            for j, sc in enumerate(scripts):
+                if any(simple_re.match(c[-1]) for c in sc['cmds']):
+                    continue        # plain words do not go through the regex engine (rstr.c): property C12
+                def find(p, l, ic=sc['ic']):
+                    k = (ic, p, l)
+                    if k not in cache:
+                        missing.add(k)
+                        return None
+                    v = cache[k]
+                    if v == 'err':
+                        raise KeyError
+                    return v
+                try:
+                    preds[j] = ex_predict(sc['lines'], sc['cmds'], find)
+                except KeyError:
+                    preds[j] = None
+            if not missing:
+                break
+            ask(sorted(missing))
+        nd = 0
+        for j, sc in enumerate(scripts):
+            if preds[j] is None or outs[j][0].crashed():
+                continue
+            npred += 1
+            got = outs[j][0].files.get('f')
+            if got != preds[j]:
+                nd += 1
+                if nd <= 3:
+                    res.disagree({'what': 'vi -s -e and the buffer predicted from the model (every pattern compiled alone) differ',
+                                  'input': [{'ic': sc['ic'], 'file': hx(b''.join(sc['lines'])), 'ex_script': hx(ex_script(sc['ic'], sc['cmds'])), 'script_text': text(sc, sc['cmds'])}],
+                                  'implementation': (got or b'').decode('utf-8', 'replace'), 'model': preds[j].decode('utf-8', 'replace')})
+        res.extra['ex_scripts_predicted_by_model'] = npred
+        res.extra['ex_script_model_differences'] = nd
+    res.extra['ex_scripts'] = len(scripts)
+    res.extra['ex_patterns_rejected_in_fresh_process'] = sum(1 for v in rejected.values() if v)
